@@ -1246,9 +1246,16 @@ fn case_keys(j: &mut J, r: &mut Rng) -> u64 {
         if let Ok((Ok(sk), Ok(sk2), Ok(pk))) = vmon_core::catch(|| (w.get_verifiable_credential_signing_key(issuer, vi), w.get_verifiable_credential_signing_key(issuer, vi), w.get_verifiable_credential_public_key(issuer, vi))) {
             j.check("keys.wallet.vc.deterministic", sk == sk2, || ("verifiable credential key not deterministic".into(), json!({"seed": hex(&ws)})));
             j.check("keys.wallet.vc.public_matches_secret", pk == ed25519_dalek::SigningKey::from_bytes(&sk).verifying_key(), || ("verifiable credential public key is not derived from its secret key".into(), json!({"seed": hex(&ws)})));
-            let other = concordium_base::contracts_common::ContractAddress::new(issuer.index ^ 1, issuer.subindex);
-            if let Ok(Ok(o)) = vmon_core::catch(|| w.get_verifiable_credential_signing_key(other, vi)) {
-                j.check("keys.wallet.vc.distinct", o != sk, || ("different issuers give the same verifiable credential key".into(), json!({"seed": hex(&ws), "issuer": issuer.index, "subindex": issuer.subindex, "index": vi})));
+            // every bit of the issuer's index and subindex must reach the key: flip each of the 128 bits
+            for b in 0..128u32 {
+                let other = if b < 64 {
+                    concordium_base::contracts_common::ContractAddress::new(issuer.index ^ (1u64 << b), issuer.subindex)
+                } else {
+                    concordium_base::contracts_common::ContractAddress::new(issuer.index, issuer.subindex ^ (1u64 << (b - 64)))
+                };
+                if let Ok(Ok(o)) = vmon_core::catch(|| w.get_verifiable_credential_signing_key(other, vi)) {
+                    j.check("keys.wallet.vc.distinct", o != sk, || ("different issuers give the same verifiable credential key".into(), json!({"seed": hex(&ws), "issuer": issuer.index, "subindex": issuer.subindex, "other_issuer": other.index, "other_subindex": other.subindex, "index": vi})));
+                }
             }
             let prev = seen.insert(sk.to_vec(), "vc".into());
             j.check("keys.wallet.distinct_paths", prev.is_none(), || ("verifiable credential key collides with an account value".into(), json!({"seed": hex(&ws)})));
